@@ -24,7 +24,7 @@ Definition dec_event (v : tval) : event :=
   match vn (vnth 0 v) with
   | 0 => Connect a b
   | 1 | 9 => if shape_is_control (vn (vnth 4 v)) then AuthOK a b c else AuthFail a b
-  | 8 => AuthFail a 0
+  | 8 | 14 | 15 => AuthFail a 0
   | 13 => AuthFail a b
   | 2 => AuthFail a b
   | 3 => Kick a b c
@@ -53,7 +53,12 @@ Definition fres_eqb (f : fres) (o : tval) : bool :=
 Definition obs_ok (answers : list fres) (o : tval) : bool :=
   forallb (fun node_obs => all2 fres_eqb answers (vl node_obs)) (vl o).
 
+(* Session code 14 (NodeShutdown n: SessionManager.Close()): the control registry is emptied and every stream closed, without
+   any store or cloud call = for every client the registry-only removal that `Kick n x 0` performs (connection 0 does not
+   exist); the adapters' deferred CloseConnection calls follow as ordinary Close events.  Code 15 (cloud-control fault): no event. *)
 Definition sess_step (v : variant) (b : backend) (ttl : N) (w : world) (op : tval) : world :=
+  if vn (vnth 0 op) =? 14
+  then fold_left (fun w' x => step v b ttl w' (Kick (vn (vnth 1 op)) (vn x) 0)) (vl (vnth 2 op)) w else
   if vn (vnth 0 op) =? 7
   then match w_ctl w (vn (vnth 1 op)) (vn (vnth 2 op)) with
        | Some _ => step v b ttl w (Close (vn (vnth 1 op)) (vn (vnth 2 op)))
